@@ -446,7 +446,11 @@ fn parse_enum_variant(
                 return Err(ParseError::MultipleUnnamedAssociatedTypes);
             }
 
-            let first_field = associated_type.unnamed.first().unwrap();
+            let Some(first_field) = associated_type.unnamed.first() else {
+                return Err(ParseError::UnsupportedType(
+                    "tuple variant without fields".to_string(),
+                ));
+            };
 
             let ty = if let Some(ty) = get_field_type_override(&first_field.attrs) {
                 ty.parse()?
